@@ -128,6 +128,10 @@ func (t DataType) goValue(endian binary.ByteOrder, bs []byte) (interface{}, erro
 		}
 		return string(bs), nil
 	case UNITEXT:
+		if len(bs) == 0 {
+			return nil, nil
+		}
+
 		if len(bs)%2 != 0 {
 			return nil, fmt.Errorf("invalid length for %v: %d is not a multiple of two", t, len(bs))
 		}
